@@ -37,7 +37,9 @@ func runC15(c *core.Ctx) {
 	}
 	// S2a key completeness
 	var keyV ssa.Value
-	puts := core.CallsIn(fn, func(in ssa.Instruction, cc *ssa.CallCommon) bool { return isInvoke(cc, "Put") && isRecvField(fn, cc.Value, "consensusGroupCacher") })
+	puts := core.CallsIn(fn, func(in ssa.Instruction, cc *ssa.CallCommon) bool {
+		return isInvoke(cc, "Put") && isRecvField(fn, cc.Value, "consensusGroupCacher")
+	})
 	searches := callsMatching(fn, "sharding", "indexHashedNodesCoordinator", "searchConsensusForKey")
 	if len(puts) != 1 || len(searches) != 1 {
 		c.Fail("C15/cache-key-complete", "indexHashedNodesCoordinator.ComputeConsensusGroup", fn.Pos(), "expected exactly one cache lookup and one cache insert")
